@@ -23,7 +23,8 @@ THEOREMS = [
     'Px.Chain.C08_reject', 'Px.Chain.C08_reject_effects', 'Px.Chain.C08_accept', 'Px.Chain.C08_auth_off',
     'Px.Chain.C08_accept_shape', 'Px.Chain.C08_dup_last_wins', 'Px.Chain.C08_absent', 'Px.Chain.C08_response',
     'Px.Chain.C08_reject_conn', 'Px.Chain.C08_order_model', 'Px.Chain.C08_order',
-    'Px.Chain.C08_strip_first', 'Px.Chain.C08_strip_later', 'Px.Chain.C08_clean_build',
+    'Px.Chain.C08_strip_first', 'Px.Chain.C08_strip_pipeline', 'Px.Chain.C08_strip_later',
+    'Px.Chain.C08_no_smuggling', 'Px.Chain.C08_clean_build',
 ]
 RULE = ('configured credentials x Proxy-Authorization variants (absent, other schemes, wrong / truncated / extended / '
         're-encoded tokens, blanks, parameters, duplicated lines, name and scheme casing, look-alike names) x methods '
@@ -35,7 +36,7 @@ ASSUMPTIONS = [
     '[scheme, token] with scheme = basic in any case and token = base64(user:pass) byte for byte; the header name is '
     'matched after strip().lower(); of duplicated lines the last one counts (parser dict semantics, C08_dup_last_wins)',
     'the request line / URL / body parser is outside this model (harness hands the model the request fields it '
-    'generated; header lines are parsed by the model); requests are well formed, one complete request per write sequence',
+    'generated; header lines are parsed by the model); requests are well formed, reads may carry several complete requests',
     '"no request-handling hook of a later plugin": the lifecycle callbacks on_access_log / '
     'on_upstream_connection_close of every plugin do run when the rejected connection closes (C09)',
     'TLS interception, connection pool, events, PROXY protocol off; --auth-plugin is the default AuthPlugin',
